@@ -1,0 +1,158 @@
+//go:build verif
+
+// Contracts for the deductive verifier in /verif (govc). This file contains
+// comments only and is compiled only under the "verif" build tag.
+
+package sync2
+
+/*@
+// ---------------------------------------------------------------- sync2.Map: TRUSTED sequential contract
+// absmap(m) is the abstract map a *Map stands for. These clauses are the sequential specification of the
+// sync.Map fork; they are ASSUMED (property C04, its linearizability, is not proved by this technique) and
+// are listed as unchecked assumptions in the evidence of every property that uses them.
+
+func Map.Load
+  trusted sequential specification of sync2.Map (C04 is not proved)
+  ensures ok == has(absmap(m), key) && value == absmap(m)[key]
+
+func Map.LoadOrStore
+  trusted sequential specification of sync2.Map (C04 is not proved)
+  ensures loaded == old(has(absmap(m), key))
+  ensures loaded ==> actual == old(absmap(m)[key])
+  ensures !loaded ==> actual == value
+  ensures forall k K :: {has(absmap(m), k)} has(absmap(m), k) == (old(has(absmap(m), k)) || k == key)
+  ensures forall k K :: {absmap(m)[k]} (k != key || loaded) ==> absmap(m)[k] == old(absmap(m)[k])
+  ensures !loaded ==> absmap(m)[key] == value
+  ensures len(absmap(m)) == old(len(absmap(m))) + b2i(!loaded)
+  assigns map(absmap(m))
+
+func Map.LoadAndDelete
+  trusted sequential specification of sync2.Map (C04 is not proved)
+  ensures loaded == old(has(absmap(m), key)) && value == old(absmap(m)[key])
+  ensures forall k K :: {has(absmap(m), k)} has(absmap(m), k) == (old(has(absmap(m), k)) && k != key)
+  ensures forall k K :: {absmap(m)[k]} k != key ==> absmap(m)[k] == old(absmap(m)[k])
+  ensures len(absmap(m)) == old(len(absmap(m))) - b2i(loaded)
+  assigns map(absmap(m))
+
+func Map.Store
+  trusted sequential specification of sync2.Map (C04 is not proved)
+  ensures forall k K :: {has(absmap(m), k)} has(absmap(m), k) == (old(has(absmap(m), k)) || k == key)
+  ensures forall k K :: {absmap(m)[k]} k != key ==> absmap(m)[k] == old(absmap(m)[k])
+  ensures absmap(m)[key] == value
+  ensures len(absmap(m)) == old(len(absmap(m))) + b2i(!old(has(absmap(m), key)))
+  assigns map(absmap(m))
+
+func Map.Delete
+  trusted sequential specification of sync2.Map (C04 is not proved)
+  ensures forall k K :: {has(absmap(m), k)} has(absmap(m), k) == (old(has(absmap(m), k)) && k != key)
+  ensures forall k K :: {absmap(m)[k]} k != key ==> absmap(m)[k] == old(absmap(m)[k])
+  ensures len(absmap(m)) == old(len(absmap(m))) - b2i(old(has(absmap(m), key)))
+  assigns map(absmap(m))
+
+func Map.Range
+  trusted sequential specification of sync2.Map (C04 is not proved): each key exactly once, stop at first false
+  mode rangeloop
+  opt rangemap absmap(m)
+
+// ---------------------------------------------------------------- C03: *sync2.Set against the Set interface contract
+
+func Set.Has
+  property C03
+  implements sets.Set.Has
+  requires s != nil
+
+func Set.Add
+  property C03
+  implements sets.Set.Add
+  requires s != nil
+
+func Set.Remove
+  property C03
+  implements sets.Set.Remove
+  requires s != nil
+
+func Set.Len
+  property C03
+  implements sets.Set.Len
+  requires s != nil
+  rangecall 0 invariant count == niter
+
+func Set.Range
+  property C03
+  requires s != nil
+  mode rangeloop
+  opt rangemap setmap(s)
+  ensures[members] forall i :: 0 <= i && i < loglen(f) ==> mem(s, logarg(f, 0, i))
+  ensures[once]    forall i, j :: 0 <= i && i < j && j < loglen(f) ==> logarg(f, 0, i) != logarg(f, 0, j)
+  ensures[stop]    forall i :: 0 <= i && i < loglen(f) - 1 ==> f(logarg(f, 0, i))
+  ensures[all]     (forall i :: 0 <= i && i < loglen(f) ==> f(logarg(f, 0, i))) ==> loglen(f) == card(s)
+  rangecall 0 invariant loglen(f) == niter
+  rangecall 0 invariant forall i :: 0 <= i && i < loglen(f) ==> visited[logarg(f, 0, i)] && mem(s, logarg(f, 0, i)) && f(logarg(f, 0, i))
+  rangecall 0 invariant forall i, j :: 0 <= i && i < j && j < loglen(f) ==> logarg(f, 0, i) != logarg(f, 0, j)
+
+func Set.AddSet
+  property C03
+  implements sets.Set.AddSet
+  requires s != nil
+  rangecall 0 invariant added == card(s) - old(card(s)) && added >= 0
+  rangecall 0 invariant forall x T :: {mem(s, x)} mem(s, x) == (old(mem(s, x)) || (visited[x] && old(mem(set, x))))
+  rangecall 0 invariant setmap(set) != setmap(s) ==> (forall x T :: {mem(set, x)} mem(set, x) == old(mem(set, x)))
+  rangecall 0 invariant forall x T :: {visited[x]} visited[x] ==> old(mem(set, x))
+
+func Set.RemoveSet
+  property C03
+  implements sets.Set.RemoveSet
+  requires s != nil
+  rangecall 0 invariant removed == old(card(s)) - card(s) && removed >= 0
+  rangecall 0 invariant forall x T :: {mem(s, x)} mem(s, x) == (old(mem(s, x)) && !(visited[x] && old(mem(set, x))))
+  rangecall 0 invariant setmap(set) != setmap(s) ==> (forall x T :: {mem(set, x)} mem(set, x) == old(mem(set, x)))
+  rangecall 0 invariant forall x T :: {visited[x]} visited[x] ==> old(mem(set, x))
+
+func Set.Clone
+  property C03
+  implements sets.Set.Clone
+  requires s != nil
+
+func Set.Slice
+  property C03
+  implements sets.Set.Slice
+  requires s != nil
+  rangecall 0 invariant (base(result) == 0 || fresh(result)) && len(result) == niter
+  rangecall 0 invariant forall j :: 0 <= j && j < len(result) ==> visited[result[j]]
+  rangecall 0 invariant forall x T :: {visited[x]} visited[x] ==> mem(s, x) && (exists j :: 0 <= j && j < len(result) && result[j] == x)
+  rangecall 0 invariant forall i, j :: 0 <= i && i < j && j < len(result) ==> result[i] != result[j]
+
+func Set.Intersect
+  property C03
+  implements sets.Set.Intersect
+  requires s != nil
+  rangecall 0 invariant forall x T :: {mem(&result, x)} {visited[x]} mem(&result, x) == (visited[x] && mem(other, x))
+  rangecall 0 invariant forall x T :: {visited[x]} visited[x] ==> mem(s, x)
+
+func Set.Union
+  property C03
+  implements sets.Set.Union
+  requires s != nil
+
+func Set.SetDiff
+  property C03
+  implements sets.Set.SetDiff
+  requires s != nil
+  rangecall 0 invariant forall x T :: {mem(&result, x)} {visited[x]} mem(&result, x) == (visited[x] && !mem(other, x))
+  rangecall 0 invariant forall x T :: {visited[x]} visited[x] ==> mem(s, x)
+
+func Set.SymDiff
+  property C03
+  implements sets.Set.SymDiff
+  requires s != nil
+  rangecall 0 invariant result != nil && fresh(setmap(result))
+  rangecall 0 invariant forall x T :: {mem(result, x)} mem(result, x) == ((mem(s, x) && !mem(other, x)) || (visited[x] && !mem(s, x)))
+  rangecall 0 invariant forall x T :: {visited[x]} visited[x] ==> mem(other, x)
+
+func NewSetFromSlice
+  property C03
+  ensures[fresh]   result != nil && fresh(setmap(result))
+  ensures[members] forall x E :: {mem(result, x)} mem(result, x) == (exists m :: 0 <= m && m < len(slice) && slice[m] == x)
+  loop 0 invariant -1 <= rangeindex && rangeindex < len(slice)
+  loop 0 invariant forall x E :: {mem(&set, x)} mem(&set, x) == (exists j :: 0 <= j && j <= rangeindex && slice[j] == x)
+@*/
